@@ -6,9 +6,23 @@ from nssverif.f64 import bits
 from nssverif.pipeline import make_config
 
 
-def _taus(version):
+def _taus(version, prime=True):
+    """a Taus object for `version`; first (prime) objects for the OTHER shipped versions are created and used in the same
+    process, and one is used again afterwards by the callers' interleaving, so that state shared between objects
+    (class-level caches, module globals) cannot hide"""
     use_repo()
     from nuspacesim.simulation.taus.taus import Taus
+    if prime:
+        for other in (1, 2, 3):
+            if other != version:
+                c = make_config({})
+                c.simulation.tau_shower.table_version = str(other)
+                t = Taus(c)
+                b, e = np.array([0.2, 0.0005, 1.0]), np.array([7.3, 9.1, 11.0])
+                t.tau_exit_prob(b.copy(), e.copy())
+                t.tau_energy(b.copy(), e.copy(), np.array([0.3, 0.6, 0.9]))
+                with rngmod.constant(0.5):
+                    t(b.copy(), e.copy())
     cfg = make_config({})
     cfg.simulation.tau_shower.table_version = str(version)
     return Taus(cfg), cfg
